@@ -126,18 +126,22 @@ class Join(BinaryOperation):
                     f"for right-hand side of join between {lhs!r} and {rhs!r}."
                 )
             operation = self
-        if lhs.is_join_identity:
-            return IgnoreOne(True)
-        if rhs.is_join_identity:
-            return IgnoreOne(False)
+        # A join to the join identity is only a no-op if there is no predicate
+        # to filter the other operand's rows with.
+        if self.predicate.as_trivial() is True:
+            if lhs.is_join_identity:
+                return IgnoreOne(True)
+            if rhs.is_join_identity:
+                return IgnoreOne(False)
         return operation
 
     def _finish_apply(self, lhs: Relation, rhs: Relation) -> Relation:
         # Docstring inherited.
-        if lhs.is_join_identity:
-            return rhs
-        if rhs.is_join_identity:
-            return lhs
+        if self.predicate.as_trivial() is True:
+            if lhs.is_join_identity:
+                return rhs
+            if rhs.is_join_identity:
+                return lhs
         if lhs.engine != rhs.engine:
             raise EngineError(f"Mismatched join engines: {lhs.engine} != {rhs.engine}.")
         if not self.predicate.is_supported_by(lhs.engine):
